@@ -4,6 +4,7 @@ CONSTANTS NNodes = 1
  PairStride = 1
  LexStride = 1
  NumStride = 1
+ RefStride = 1
  FirstStride = 1
  VarStride = 1
  SparseStride = 1
